@@ -8,7 +8,8 @@ LEVEL = "proof"
 LEAN_PROPS = ["FastTicc.Props.C10", "FastTicc.Props.FrontEnd"]
 LEAN_HELPERS = ["FastTicc.Proofs.Stack"]
 LEAN_TRANSLATED = {"FastTicc.Props.TrSplit": ["split_joint_labels"], "FastTicc.Props.TrPad": ["pad_missing_labels"],
-                   "FastTicc.Props.TrStack": ["stack_training_data"]}
+                   "FastTicc.Props.TrStack": ["stack_training_data"],
+                   "FastTicc.Props.TrStackMulti": ["stack_training_data", "stack_training_data_multiple_series"]}
 RULE = ("random series with T in [W, W+40], W in [1,12], N in [1,6], 1..6 series; cells are random 64-bit patterns "
         "viewed as float64 (NaN payloads, inf, -0.0) compared as integers; C/Fortran order, float32/int inputs "
         "(value-exact widening); non-trivial = W>=2 and at least 2 stacked rows; distinct by content hash")
@@ -86,7 +87,7 @@ def run(ctx):
     outs = dict(zip(meta, ctx.driver.run(lines)))
 
     lab_lines, lab_meta = [], []
-    gen_stack, gen_split = [], []
+    gen_stack, gen_split, gen_multi = [], [], []
     for ci, c in enumerate(cases):
         W, N = c["W"], c["N"]
         arrs = arrays[ci]
@@ -121,6 +122,9 @@ def run(ctx):
         got_multi = show_list([[int(x) for x in row] for row in bits(multi)], lambda r: show_list(r), ";")
         gen_stack.append((show_list([[int(x) for x in row] for row in bits(arrs[0])], lambda r: show_list(r), ";")
                           + f" {W}", "ok " + got_single, c))
+        if all(a.shape[0] >= 1 for a in arrs):
+            gen_multi.append((show_list([[[int(x) for x in row] for row in bits(a)] for a in arrs],
+                                        lambda s_: show_list(s_, lambda r: show_list(r), ";"), "|") + f" {W}", "ok " + got_multi, c))
         if got_single != outs[(ci, "single")]:
             ctx.violation("correspondence-break", "stack vs stack_training_data", c)
         if got_multi != outs[(ci, "multi")]:
@@ -173,6 +177,7 @@ def run(ctx):
 
     # the functions TRANSLATED from the source (Generated/Kernels.lean) on the same inputs
     ctx.gen_compare("stack_training_data", [g for g in gen_stack if g[0].split(" ")[0] not in ("-", "")])
+    ctx.gen_compare("stack_training_data_multiple_series", gen_multi)
     ctx.gen_compare("split_joint_labels", gen_split + [("0,1,2 2,2", "err AssertionError", {})])
     # the real code's length assertion
     if ctx.replay is None:
